@@ -35,6 +35,8 @@ var c03Subs = []interface{}{
 	[]interface{}{1.0},
 	[]interface{}{1.0, 2.0},
 	1.0, 2.0, "s", true, nil,
+	// numbers as a Go host (or an earlier action) leaves them
+	int(2), int64(1), map[string]interface{}{"p": int64(1)}, []interface{}{int(1), 2.0},
 }
 
 func c03Sub(c *sim.Ctx) interface{} { return ref.CopyVal(c03Subs[c.Intn(len(c03Subs), "sub")]) }
@@ -235,7 +237,7 @@ func snapshotArgs(pat, msg interface{}, bs match.Bindings) string {
 	identity(msg, &acc)
 	acc = append(acc, "#")
 	identity(bs, &acc)
-	return strings.Join(acc, ";") + "|" + ref.Canon(pat) + "|" + ref.Canon(msg) + "|" + ref.Canon(map[string]interface{}(bs))
+	return strings.Join(acc, ";") + "|" + typedCanon(pat) + "|" + typedCanon(msg) + "|" + typedCanon(bs)
 }
 
 func runC03Order(c *sim.Ctx, t *testing.T) {
